@@ -513,6 +513,9 @@ func (h *Hist) adopt(outs []outSpec, sigs cashu.BlindedSignatures) {
 		}
 		b := outs[i].b
 		ksid := sg.Id
+		if ksid != h.tm.ActiveId() {
+			h.sink.Violate("signed-on-inactive-keyset"+h.sigSuffix, fmt.Sprintf("the mint returned a signature on keyset %s while the active keyset is %s", ksid, h.tm.ActiveId()), "", LL(h.items).String())
+		}
 		ks := h.tm.Keysets[ksid]
 		b.signed, b.sigAmount, b.sigKs, b.sig = true, sg.Amount, h.ksHandle(ksid), sg
 		if ks == nil || !outs[i].point {
@@ -710,6 +713,9 @@ func (h *Hist) OpMintQuote(m mode, amount uint64, withKey bool, badKey bool, uni
 			if mq, err := h.wdb.inner.GetMintQuoteByPaymentHash(hash); err == nil {
 				q.id, q.hash, q.req = mq.Id, mq.PaymentHash, mq.PaymentRequest
 				h.mq[q.h] = q
+				if out.err == nil && !out.crashed && out.panicV == nil {
+					h.tm.LN.WaitSubscribed(hash)
+				}
 			} else {
 				// the invoice exists at the backend but no quote row: remember the hash for the handle mapping
 				q.hash = hash
@@ -717,6 +723,15 @@ func (h *Hist) OpMintQuote(m mode, amount uint64, withKey bool, badKey bool, uni
 		}
 	})
 	if q.id != "" {
+		if m.kind == 0 && unitOK && !badKey {
+			// C16 monitor: an accepted mint quote respects the configured limits at the time it was requested
+			if h.cfg.maxMint > 0 && amount > h.cfg.maxMint {
+				h.sink.Violate("mint-quote-above-max-amount"+h.sigSuffix, fmt.Sprintf("a mint quote of %d was accepted, the maximum is %d", amount, h.cfg.maxMint), op.String(), LL(h.items).String())
+			}
+			if bal, ok := h.storeBalance(); ok && h.cfg.maxBalance > 0 && (bal+amount > h.cfg.maxBalance || bal+amount < bal) {
+				h.sink.Violate("mint-quote-above-max-balance"+h.sigSuffix, fmt.Sprintf("a mint quote of %d was accepted at balance %d, the maximum balance is %d", amount, bal, h.cfg.maxBalance), op.String(), LL(h.items).String())
+			}
+		}
 		return q
 	}
 	return nil
@@ -1252,12 +1267,37 @@ func (h *Hist) OpBalance(m mode) {
 	}
 }
 
+func (h *Hist) storeBalance() (uint64, bool) {
+	iss, e1 := h.wdb.inner.GetIssuedEcash()
+	red, e2 := h.wdb.inner.GetRedeemedEcash()
+	if e1 != nil || e2 != nil {
+		return 0, false
+	}
+	var i, r uint64
+	for _, x := range iss {
+		i += x
+	}
+	for _, x := range red {
+		r += x
+	}
+	return i - r, r <= i
+}
+
 func (h *Hist) OpInfo(m mode) {
 	op := L(A(14))
-	h.exec(m, op, func() (any, error) {
+	v, err, out := h.exec(m, op, func() (any, error) {
 		info, err := h.tm.M.RetrieveMintInfo()
 		return info.Nuts.Nut04.Disabled, err
 	}, func(v any) S { return L(A(7), AB(v.(bool))) })
+	if err == nil && !out.crashed && out.panicV == nil && m.kind == 0 {
+		// C16 monitor: minting is shown disabled exactly when the balance has reached the configured maximum
+		if bal, ok := h.storeBalance(); ok {
+			want := h.cfg.maxBalance > 0 && bal >= h.cfg.maxBalance
+			if v.(bool) != want {
+				h.sink.Violate("info-disabled-flag-wrong"+h.sigSuffix, fmt.Sprintf("info shows disabled=%v with balance %d and max balance %d", v.(bool), bal, h.cfg.maxBalance), op.String(), LL(h.items).String())
+			}
+		}
+	}
 }
 
 // finish writes the history as one case.
